@@ -1374,6 +1374,24 @@ func existenceFlags(p *Prog) map[*types.Var]bool {
 				return true
 			}
 			stores[fv]++
+			if meth == "CompareAndSwap" && len(args) == 2 && isIdentNamed(args[0], "false") && isIdentNamed(args[1], "true") {
+				// `if flag.CompareAndSwap(false, true) { ...; go x.run(...) }`: the flag says that the loop was launched
+				if is, ok := p.Parent(cl).(*ast.IfStmt); ok && is.Cond == ast.Expr(cl) {
+					launches := false
+					inspectNoLit(is.Body, func(z ast.Node) bool {
+						if gs, ok := z.(*ast.GoStmt); ok {
+							if fn := callee(in, gs.Call); fn != nil && fn.Name() == "run" {
+								launches = true
+							}
+						}
+						return true
+					})
+					if launches {
+						good[fv]++
+					}
+				}
+				return true
+			}
 			if meth != "Store" || len(args) != 1 {
 				return true
 			}
@@ -1416,4 +1434,9 @@ func existenceFlags(p *Prog) map[*types.Var]bool {
 		}
 	}
 	return out
+}
+
+func isIdentNamed(e ast.Expr, name string) bool {
+	id, ok := unparen(e).(*ast.Ident)
+	return ok && id.Name == name
 }
